@@ -8,7 +8,7 @@ for id in "$@"; do
   out=$(sh tools/verify_seed.sh $P $N 2>&1 | tail -1)
   echo "$out"
   case "$out" in
-    *"0 tests failed out of 10 | demo with change rc=1 | demo on unchanged tree rc=0"*) IDS="$IDS $id"; git -C /repo worktree remove --force /tmp/seed-$id 2>/dev/null;;
+    *"0 tests failed out of 10 | demo with change rc="[1-9]" | demo on unchanged tree rc=0"*) IDS="$IDS $id"; git -C /repo worktree remove --force /tmp/seed-$id 2>/dev/null;;
     *) echo "NOT CONFIRMED: $id (worktree kept)";;
   esac
 done
